@@ -473,7 +473,23 @@ def check(rep, prog, fn):
             ops = n.c if n.k == 'BinaryOperator' else n.c[1:]
             if len(ops) == 2 and any(d.k == 'DeclRefExpr' and d.decl_id == outp for d in ops[0].walk()) and ex.var_of(ops[0]) != outp:
                 emits.append((n, ex.var_of(ops[1])))
-    if not emits:
+    # the output iterator is a value: handing it by value to a helper that writes through it and then using the stale copy again overwrites
+    # the first emitted vertex for positional iterators (rule shared with C05: R05f)
+    from . import approx
+
+    class _F(list):
+        def add(self, rule, node, fn_, what, status, detail='', key=None):
+            self.append((rule, node, fn_, what, status, detail, key))
+    F5 = _F()
+    if outp is not None:
+        approx.iterator_discipline_for(prog, F5, fn, [outp])
+    helper_emits = False
+    for (rule, node, fn_, what_, status, detail, key) in F5:
+        rep.add('R05f', node, fn_, what_, status, detail, key=key)
+        helper_emits = True
+    if not emits and helper_emits:
+        pass
+    elif not emits:
         rep.undecided('R13d', fn.body, fn, whatd, 'no emission through the output iterator found')
     for (n, v) in emits:
         probs = []
@@ -608,6 +624,7 @@ def check(rep, prog, fn):
 
 
 def run(rep, tier):
+    rep.rule('R05f', 'the output iterator is not reused after being passed by value to a helper that writes through it', floor=0)
     rep.rule('R13g', 'the vertex read from the discard queue / heap is the one removed from it', floor=3)
     rep.rule('R13e', 'the emission loop does not stop while three or more heap entries remain', floor=1)
     rep.rule('R13f', 'no early exit between the clean-up and the emission loop', floor=0)
